@@ -19,9 +19,9 @@ CONSTANT StrLen      \* string literal bodies up to this many characters
 
 VARIABLE t
 
-\* e.g. SYNTAX_FIXES=2345 (all repairs), SYNTAX_FIXES=none (the pinned tree)
+\* e.g. SYNTAX_FIXES=23456 (all repairs), SYNTAX_FIXES=none (the pinned tree)
 EnvFixes == LET s == IOEnv.SYNTAX_FIXES
-            IN { n \in {2, 3, 4, 5} : \E i \in 1..Len(s) : SubSeq(s, i, i) = ToString(n) }
+            IN { n \in {2, 3, 4, 5, 6} : \E i \in 1..Len(s) : SubSeq(s, i, i) = ToString(n) }
 
 TreeInit ==
   LET E1 == IF Depth >= 1 THEN Exact(Depth - 1) ELSE {}
